@@ -20,7 +20,7 @@ CHECK = Check(
         "stateful: a real manager (detection or tracking; ego or map frame) with a pool of 2-4 generated ground-truth "
         "frames installed as its dataset; operation sequences of add_frame_result(frame index, estimate variant, "
         "critical-filter variant, pass/fail variant) incl. re-evaluation of earlier frames with other critical filters, "
-        "get_scene_result queries (with a permuted-order second manager), and fresh replays of an earlier call on a "
+        "interpolating ground-truth lookups between two loaded frames, get_scene_result queries (with a permuted-order second manager), and fresh replays of an earlier call on a "
         "brand-new manager. Non-trivial = sequence with >=3 add steps including a re-evaluation of an earlier frame "
         "index with a different critical filter and >=1 scene query; distinct by op-log hash."
     ),
@@ -37,6 +37,12 @@ TOL = 1e-9
 
 class State:
     def __init__(self, case):
+        import copy
+
+        case = copy.deepcopy(case)
+        for f in case["frames"]:
+            for g in f["gt"]:
+                g.setdefault("vel", [0.0, 0.0, 0.0])  # (P6) loaded annotations carry velocities; interpolation needs them
         self.d = case
         self.frame = case["frame"]
         self.mgr = MG.make_manager(case)
@@ -81,6 +87,14 @@ def do_add(ctx, mgr, pool, d, op, frame):
     ids = [id(o) for o in passed]
     snaps = [D.snapshot3d(o) for o in passed]
     res = None
+    cf = d["frames"][op["c"]]
+    if op.get("perm"):
+        # the same critical filter written with its labels (and per-label lists) in another order
+        import itertools
+
+        n = len(d["targets"])
+        perms = list(itertools.permutations(range(n)))
+        cf = dict(cf, crit=dict(cf["crit"], perm=list(perms[op["perm"] % len(perms)])))
     with ctx.under_test("add_frame_result"):
         now = mgr.get_ground_truth_now_frame(t)
         ctx.require(now is pool[i], "lookup-wrong-frame", f"lookup of frame {i} returned another frame")
@@ -88,7 +102,7 @@ def do_add(ctx, mgr, pool, d, op, frame):
             unix_time=t,
             ground_truth_now_frame=now,
             estimated_objects=passed,
-            critical_object_filter_config=MG.crit_config(mgr, d, d["frames"][op["c"]]),
+            critical_object_filter_config=MG.crit_config(mgr, d, cf),
             frame_pass_fail_config=MG.pf_config(mgr, d, d["frames"][op["p"]]),
         )
     if res is None:
@@ -114,20 +128,16 @@ def check_scene(ctx, st_):
     frs = mgr.frame_results
     exp_gt = sum(1 for fr in frs for g in fr.frame_ground_truth.objects if g.semantic_label.label.value in targets)
     ctx.require(scene.num_ground_truth == exp_gt, "scene-num-gt", lambda: f"scene num_ground_truth {scene.num_ground_truth} but the evaluated frames hold {exp_gt} critical target-labelled GTs")
-    distinct_conf = SL.check_maps(ctx, scene.maps, frs, targets, pol, "scene")
-    for ts in scene.tracking_scores:
+    distinct_conf = SL.check_maps(ctx, scene.maps, frs, targets, pol, "scene", d)
+    for ts, row in zip(scene.tracking_scores, MG.configured_rows(ctx, d, scene.tracking_scores, "scene-tracking", expect=d["task"] == "tracking")):
         mode = ts.matching_mode.name
-        for L, clear in zip(targets, ts.clears):
-            thr = clear.matching_threshold_list[0]
+        for li, (L, clear) in enumerate(zip(targets, ts.clears)):
+            thr = row[li] if row is not None else clear.matching_threshold_list[0]
             hist = [[]] + [c05._ref_bucket(fr.object_results, L, targets, pol, mode, thr) for fr in frs]
             c05._check_against_ref(ctx, clear, RC.accumulate(hist), clear.num_ground_truth, what=f"scene {mode} {L}: ")
     # one-frame scene reproduces that frame's detection score
     if len(frs) == 1:
-        a, b = MG.summarize_score(scene), MG.summarize_score(frs[0].metrics_score)
-        ctx.require(len(a["maps"]) == len(b["maps"]), "one-frame-scene", "different number of Map scores")
-        for ma, mb in zip(a["maps"], b["maps"]):
-            ok = all(MG.feq(x, y, TOL) for x, y in zip(ma["ap"] + ma["aph"] + [ma["map"], ma["maph"]], mb["ap"] + mb["aph"] + [mb["map"], mb["maph"]]))
-            ctx.require(ok, "one-frame-scene", lambda: f"scene {ma} vs frame {mb}")
+        one_frame_scene(ctx, scene, frs[0])
     # pooled AP does not depend on the order in which frames were added (distinct confidences)
     if distinct_conf and 2 <= len(st_.calls) <= 6:
         m2 = MG.make_manager(d)
@@ -151,6 +161,14 @@ def check_scene(ctx, st_):
                     ctx.require(ok2, "scene-ap-order-dependent", lambda: f"{ma['mode']} {ma['thr']}: AP {ma['ap']} vs {mb['ap']} after adding the same frames in reverse order")
 
 
+def one_frame_scene(ctx, scene, fr):
+    a, b = MG.summarize_score(scene), MG.summarize_score(fr.metrics_score)
+    ctx.require(len(a["maps"]) == len(b["maps"]), "one-frame-scene", "different number of Map scores")
+    for ma, mb in zip(a["maps"], b["maps"]):
+        ok = all(MG.feq(x, y, TOL) for x, y in zip(ma["ap"] + ma["aph"] + [ma["map"], ma["maph"]], mb["ap"] + mb["aph"] + [mb["map"], mb["maph"]]))
+        ctx.require(ok, "one-frame-scene", lambda: f"scene of one frame {ma} vs that frame's own score {mb}")
+
+
 def check_pool(ctx, st_):
     for i, (f, snap) in enumerate(zip(st_.pool, st_.pool_snap)):
         now = State._snap(f)
@@ -172,11 +190,34 @@ def apply_op(ctx, st_, op):
                 st_.reeval_other_filter = True
         st_.calls.append((op, summ))
         ctx.cls("add")
+        if op.get("perm"):
+            ctx.cls("add_with_permuted_critical_labels")
+        if len(st_.mgr.frame_results) == 1:
+            sc1 = None
+            with ctx.under_test("get_scene_result(one frame)"):
+                sc1 = st_.mgr.get_scene_result()
+            if sc1 is not None:
+                ctx.cls("one_frame_scene_compared")
+                one_frame_scene(ctx, sc1, st_.mgr.frame_results[0])
     elif op["op"] == "scene":
         if st_.calls:
             check_scene(ctx, st_)
             st_.n_scene += 1
             ctx.cls("scene_query")
+    elif op["op"] == "interp":
+        # an interpolating lookup between two loaded frames (what the tracking pipeline does for every off-sample
+        # timestamp), interleaved with evaluations: it must leave the loaded dataset alone (check_pool below); whether the
+        # interpolation itself is right is C17's business, so an exception here is only classified
+        i = op["f"] % max(1, len(st_.pool) - 1)
+        t = D.T0 + i * 100_000 + op["a"] * 10_000
+        try:
+            now = st_.mgr.get_ground_truth_now_frame(t, 200_000, interpolate_ground_truth=True)
+            ctx.cls("interp_lookup" if now is not None and all(now is not f for f in st_.pool) else "interp_lookup_loaded_frame")
+            st_.n_interp = getattr(st_, "n_interp", 0) + 1
+        except PropertyViolation:
+            raise
+        except Exception as e:  # noqa: BLE001
+            ctx.cls(f"interp_raised_{type(e).__name__}")
     elif op["op"] == "fresh":
         if not st_.calls:
             return
@@ -194,6 +235,14 @@ def apply_op(ctx, st_, op):
         fresh = MG.summarize_frame(res, ests, gtf.objects)
         ctx.cls("fresh_replay")
         MG.compare_summaries(ctx, st_.calls[k][1], fresh, "history-dependent", tol=1e-12)
+        if len(m2.frame_results) == 1:
+            # the fresh manager now holds a one-frame scene of exactly that call
+            sc2 = None
+            with ctx.under_test("get_scene_result(one frame)"):
+                sc2 = m2.get_scene_result()
+            if sc2 is not None:
+                ctx.cls("one_frame_scene_compared")
+                one_frame_scene(ctx, sc2, m2.frame_results[0])
     check_pool(ctx, st_)
     ctx.mark_nontrivial(len(st_.calls) >= 3 and st_.reeval_other_filter and st_.n_scene >= 1)
 
@@ -232,10 +281,13 @@ def factory(ctx, tier):
             ctx.begin([])
             self._do({"op": "init", "case": case})
 
-        @rule(f=st.integers(0, 3), e=st.integers(0, 2), c=st.integers(0, 3), p=st.integers(0, 3))
-        def add(self, f, e, c, p):
+        @rule(f=st.integers(0, 3), e=st.integers(0, 2), c=st.integers(0, 3), p=st.integers(0, 3), perm=st.sampled_from([0, 0, 1, 2, 3, 5]))
+        def add(self, f, e, c, p, perm):
             n = len(self.state.d["frames"])
-            self._do({"op": "add", "f": f % n, "e": e, "c": c % n, "p": p % n})
+            op = {"op": "add", "f": f % n, "e": e, "c": c % n, "p": p % n}
+            if perm:
+                op["perm"] = perm
+            self._do(op)
 
         @rule()
         def scene(self):
@@ -244,6 +296,10 @@ def factory(ctx, tier):
         @rule(k=st.integers(0, 50))
         def fresh(self, k):
             self._do({"op": "fresh", "k": k})
+
+        @rule(f=st.integers(0, 3), a=st.integers(1, 9))
+        def interp(self, f, a):
+            self._do({"op": "interp", "f": f, "a": a})
 
     return Machine
 
@@ -257,7 +313,7 @@ def replay(ctx, log):
             apply_op(ctx, st_, op)
 
 
-CHECK.machine("manager_histories", factory, replay, quick=(160, 14), thorough=(4800, 25))
+CHECK.machine("manager_histories", factory, replay, quick=(180, 18), thorough=(4800, 28))
 
 
 # ------------------------------------------------------------------------------------------------
